@@ -529,6 +529,15 @@ enum E<T> {
     New(T),
     Tup(T, u8),
     Rec { x: T, y: bool },
+    /// data-carrying shapes that carry nothing: a struct variant without fields, a tuple variant
+    /// without elements, and a struct variant whose only field is left out when it is `None`
+    /// (seeded change C19-10 turned every struct variant that serialises no field into a bare `{}`)
+    Empty {},
+    Nil(),
+    Opt {
+        #[serde(default, skip_serializing_if = "Option::is_none")]
+        note: Option<u8>,
+    },
 }
 #[derive(Serialize)]
 struct RecRef<'a, T> {
@@ -550,6 +559,12 @@ impl<T: Model + Serialize> Model for E<T> {
                 DK::S("Rec".into()),
                 D::map(vec![(DK::S("x".into()), x.model()), (DK::S("y".into()), y.model())]),
             )]),
+            E::Empty {} => D::map(vec![(DK::S("Empty".into()), D::map(vec![]))]),
+            E::Nil() => D::map(vec![(DK::S("Nil".into()), D::Seq(vec![]))]),
+            E::Opt { note } => D::map(vec![(
+                DK::S("Opt".into()),
+                D::map(note.iter().map(|n| (DK::S("note".into()), n.model())).collect()),
+            )]),
         }
     }
     fn insert_fields(&self, ctx: &mut Context) -> bool {
@@ -558,6 +573,9 @@ impl<T: Model + Serialize> Model for E<T> {
             E::New(x) => ctx.insert("New", x),
             E::Tup(a, b) => ctx.insert("Tup", &(a, b)),
             E::Rec { x, y } => ctx.insert("Rec", &RecRef { x, y }),
+            E::Empty {} => ctx.insert("Empty", &BTreeMap::<String, u8>::new()),
+            E::Nil() => ctx.insert("Nil", &Vec::<u8>::new()),
+            E::Opt { note } => ctx.insert("Opt", &note.iter().map(|n| ("note".to_string(), *n)).collect::<BTreeMap<String, u8>>()),
         }
         true
     }
@@ -922,6 +940,7 @@ fn mk_e<T: Clone>(v: &[T]) -> Vec<E<T>> {
     if v.len() == 1 {
         out.push(E::Rec { x: v[0].clone(), y: false });
     }
+    out.extend([E::Empty {}, E::Nil(), E::Opt { note: None }, E::Opt { note: Some(7) }]);
     out
 }
 
@@ -1256,6 +1275,8 @@ fn bad_keys() -> Vec<Box<dyn BadCase>> {
     bad!("newtype variant", E::New(1u8));
     bad!("tuple variant", E::Tup(1u8, 2));
     bad!("struct variant", E::Rec { x: 1u8, y: true });
+    bad!("struct variant without fields", E::<u8>::Empty {});
+    bad!("tuple variant without elements", E::<u8>::Nil());
     transparent!("Some(5i64)", Some(5i64));
     transparent!("Some('c')", Some('c'));
     transparent!("newtype struct around u64::MAX", N(u64::MAX));
@@ -1555,7 +1576,7 @@ fn main() {
         "alphabets",
         json!({
             "leaves": "bool, i8..i128, isize, u8..u128, usize (MIN, -1, 0, 1, MAX; thorough adds the boundaries of every narrower width +-1, 2^53+1), f32/f64 (+-0, 1.5, MIN_POSITIVE, MAX, +-inf, NaN; thorough adds MIN, EPSILON, 0.1, smallest subnormal, 2^53+-1, 1e15/1e16/1e-7/1e300), char (a é 😀 \"; thorough adds NUL, newline, backslash, U+10FFFF, U+0301, space, ', {), String (\"\", a, é, a\"b; thorough adds 21/22-byte, multibyte 22-byte, <&>, {{ x }}, newline, true, 1, backslash, combining, NUL), (), unit struct U, unit-variant enum UE (one variant renamed to \"b c\")",
-            "combinators": "Option, SO{o: Option<T>, b: T}, Vec, (T,), (T,T), (T,bool,T), BTreeMap<K,T> for K in {String, &str (serialize only), char, bool, u8, i64, u64, i128, u128, UE}, HashMap<K,T> for K in {String, char, bool, i64, u128, UE}, newtype N(T), tuple struct TS(T,i64), struct S{a,n,s}, enum E{Unit, New(T), Tup(T,u8), Rec{x,y}}",
+            "combinators": "Option, SO{o: Option<T>, b: T}, Vec, (T,), (T,T), (T,bool,T), BTreeMap<K,T> for K in {String, &str (serialize only), char, bool, u8, i64, u64, i128, u128, UE}, HashMap<K,T> for K in {String, char, bool, i64, u128, UE}, newtype N(T), tuple struct TS(T,i64), struct S{a,n,s}, enum E{Unit, New(T), Tup(T,u8), Rec{x,y}, Empty{}, Nil(), Opt{note: Option<u8> skipped when None}}",
             "second_level": "core combinators {Option, Vec, (T,T), BTreeMap<String,_>, HashMap<i64,_>, N, S, E} over leaves {u64, i128, String, f64, UE, ()} x every combinator",
             "unsupported_keys": "f64 (1.5, 1.0, NaN), f32, N(f64), Some(f64), tuples, Vec, None, (), unit struct, Some(()), bytes, maps, struct, tuple struct, newtype / tuple / struct variants; transparent wrappers Some(k), N(k) around supported keys are accepted-or-refused",
         }),
